@@ -37,6 +37,110 @@ func isLockRelease(f *ssa.Function) bool {
 	return strings.HasSuffix(n, ".World).unlock") || strings.HasSuffix(n, ".storage).unlock")
 }
 
+// isLockHandover: the acquisition used by query constructors, which return while the bit is held
+// (the query releases it when it is exhausted or closed).
+func isLockHandover(f *ssa.Function) bool {
+	n := f.RelString(nil)
+	return strings.HasSuffix(n, ".World).lockSafe")
+}
+
+// mayPanicExplicitly: the function, or a package function it calls statically (transitively),
+// contains an explicit panic; calls through function values and interfaces count as "may panic".
+func mayPanicExplicitly(f *ssa.Function, seen map[*ssa.Function]bool) bool {
+	if f == nil || seen[f] {
+		return false
+	}
+	seen[f] = true
+	if len(f.Blocks) == 0 {
+		return false // external (standard library) function: not a rejection path of ark
+	}
+	for _, b := range f.Blocks {
+		for _, ins := range b.Instrs {
+			if _, ok := ins.(*ssa.Panic); ok {
+				return true
+			}
+			if c, ok := ins.(ssa.CallInstruction); ok {
+				if _, isB := c.Common().Value.(*ssa.Builtin); isB {
+					continue
+				}
+				if g := calleeOf(ins); g != nil {
+					if mayPanicExplicitly(g, seen) {
+						return true
+					}
+				} else {
+					return true
+				}
+			}
+		}
+	}
+	return false
+}
+
+// lockHandover checks one function: after a call of World.lockSafe whose bit the function hands
+// over to its caller (query constructors), no path to the return may pass an explicit panic or a
+// call that may panic explicitly -- a rejected argument after the acquisition would leak the bit:
+// the world would stay locked although no query exists.
+func lockHandover(L *Loaded, name string, fn *ssa.Function) ([]lockFinding, int) {
+	var out []lockFinding
+	n := 0
+	for _, b0 := range fn.Blocks {
+		for i0, ins0 := range b0.Instrs {
+			acq, ok := ins0.(*ssa.Call)
+			if !ok {
+				continue
+			}
+			if f := calleeOf(acq); f == nil || !isLockHandover(f) {
+				continue
+			}
+			n++
+			p := L.Fset.Position(acq.Pos())
+			line := lineText(p.Filename, p.Line)
+			type st struct {
+				b   *ssa.BasicBlock
+				idx int
+			}
+			seen := map[*ssa.BasicBlock]bool{}
+			work := []st{{b0, i0 + 1}}
+			for len(work) > 0 {
+				s := work[len(work)-1]
+				work = work[:len(work)-1]
+				if s.idx == 0 {
+					if seen[s.b] {
+						continue
+					}
+					seen[s.b] = true
+				}
+				for i := s.idx; i < len(s.b.Instrs); i++ {
+					ins := s.b.Instrs[i]
+					what := ""
+					switch x := ins.(type) {
+					case *ssa.Panic:
+						what = "explicit panic"
+					case ssa.CallInstruction:
+						if _, isB := x.Common().Value.(*ssa.Builtin); isB {
+							break
+						}
+						g := calleeOf(ins)
+						if g == nil {
+							what = "call through a function value or interface"
+						} else if mayPanicExplicitly(g, map[*ssa.Function]bool{}) {
+							what = "call of " + g.RelString(L.SPkg.Pkg) + ", which may panic explicitly,"
+						}
+					}
+					if what != "" {
+						pp := L.Fset.Position(ins.Pos())
+						out = append(out, lockFinding{name, "handover", what + " after the lock bit was obtained at \"" + line + "\" and before it is handed over: a rejection here leaks the bit", lineText(pp.Filename, pp.Line)})
+					}
+				}
+				for _, succ := range s.b.Succs {
+					work = append(work, st{succ, 0})
+				}
+			}
+		}
+	}
+	return dedupFindings(out), n
+}
+
 func calleeOf(ins ssa.Instruction) *ssa.Function {
 	c, ok := ins.(ssa.CallInstruction)
 	if !ok {
@@ -504,6 +608,7 @@ func (r *Report) runLockCheck(allowFile string) (int, map[string]any) {
 	sort.Strings(names)
 	var all []lockFinding
 	nAcq := 0
+	nHand := 0
 	for _, n := range names {
 		f := r.L.Funcs[n]
 		if f.Synthetic != "" || (f.Pkg != r.L.SPkg && !(f.Origin() != nil && f.Origin().Pkg == r.L.SPkg)) {
@@ -517,6 +622,9 @@ func (r *Report) runLockCheck(allowFile string) (int, map[string]any) {
 			}
 		}
 		all = append(all, lockBalance(r.L, n, f)...)
+		hf, nh := lockHandover(r.L, n, f)
+		all = append(all, hf...)
+		nHand += nh
 		if r.Sweep == "pairing" {
 			all = all[:0]
 		}
@@ -555,9 +663,9 @@ func (r *Report) runLockCheck(allowFile string) (int, map[string]any) {
 		extra := "no-failing-input-found"
 		fmt.Printf("VIOLATION property=%s replay=%s obligation=%s#%s %s\n", r.Prop, path, strings.ReplaceAll(f.Func, " ", "_"), f.Kind, extra)
 	}
-	samples = append(samples, map[string]any{"lock_acquire_sites": nAcq, "entry_points_reaching_structural_primitives": nEntry, "of_which_guarded_by_checkLocked": nGuarded})
-	fmt.Printf("%s pass: acquire sites=%d entry points=%d guarded=%d findings=%d\n", r.Sweep, nAcq, nEntry, nGuarded, v)
-	cov := map[string]any{"lock_acquire_sites": nAcq, "entry_points": nEntry, "entry_points_guarded": nGuarded, "lock_findings": v, "lock_samples": samples}
+	samples = append(samples, map[string]any{"lock_acquire_sites": nAcq, "lock_handover_sites": nHand, "entry_points_reaching_structural_primitives": nEntry, "of_which_guarded_by_checkLocked": nGuarded})
+	fmt.Printf("%s pass: acquire sites=%d handover sites=%d entry points=%d guarded=%d findings=%d\n", r.Sweep, nAcq, nHand, nEntry, nGuarded, v)
+	cov := map[string]any{"lock_acquire_sites": nAcq, "lock_handover_sites": nHand, "entry_points": nEntry, "entry_points_guarded": nGuarded, "lock_findings": v, "lock_samples": samples}
 	return v, cov
 }
 
